@@ -190,6 +190,30 @@ func pktFields(p packettypes.Packet, dataTok string) string {
 }
 
 // KSend calls PacketKeeper.SendPacket directly (as an application module would), then commits.
+// KWriteAck: a module calling WriteAcknowledgement directly (asynchronous acknowledgement).
+func (w *World) KWriteAck(c *tibctesting.TestChain, p packettypes.Packet, dataTok string, ack []byte) error {
+	ctx := c.GetContext()
+	err := c.App.TIBCKeeper.PacketKeeper.WriteAcknowledgement(ctx, p, ack)
+	w.Coord.CommitBlock(c)
+	res := "ok"
+	evs := ""
+	if err != nil {
+		cs, code, _ := errorsABCI(err)
+		res = ErrClass(cs, code)
+	} else {
+		evs = w.EventsStr(ctx.EventManager().ABCIEvents())
+		if len(ack) == 0 {
+			w.hit("C03", "empty-acknowledgement-recorded "+pkeyStr(p))
+		}
+	}
+	ackTok := "raw|-"
+	if len(ack) > 0 {
+		ackTok = w.AckTok(ack)
+	}
+	w.emit(fmt.Sprintf("kwack %s %s %s", c.ChainName, pktFields(p, dataTok), ackTok), fmt.Sprintf("res=%s | %s | %s", res, evs, w.Dump(c)))
+	return err
+}
+
 func (w *World) KSend(c *tibctesting.TestChain, p packettypes.Packet, dataTok string) error {
 	before := w.Dump(c)
 	nextBefore := c.App.TIBCKeeper.PacketKeeper.GetNextSequenceSend(c.GetContext(), p.SourceChain, p.DestinationChain)
